@@ -528,11 +528,11 @@ func c18EmitGenerate(co *caseOut, r *rng, cf *commonFlags, ints []*big.Int) {
 	quick := cf.tier == "quick"
 	for i, z := range ints {
 		zs := z.String()
-		byteEdge := z.BitLen()%8 == 0 || z.BitLen()%8 == 7 || z.BitLen()%8 == 1 || z.BitLen() < 20
-		if !quick || byteEdge || i%5 == 0 {
+		byteEdge := z.BitLen()%8 == 0 || z.BitLen()%8 == 7 || z.BitLen() < 18
+		if !quick || byteEdge || i%7 == 0 {
 			c18xRun(co, "emitint", c18xInput{Z: zs, Mode: 0})
 		}
-		if z.IsInt64() {
+		if z.IsInt64() && (!quick || byteEdge || i%4 == 0) {
 			c18xRun(co, "emitint", c18xInput{Z: zs, Mode: 1})
 		}
 		if !quick || i%3 == int(cf.seed%3) {
